@@ -230,6 +230,12 @@ class KindAnalysis:
                 b = self.k(base)
                 if b and b[0] in ("ARR", "MASKARR"):
                     return ("FLATMASK", b[1])
+            if e.attr == "mask" and self._is_storage(base):
+                return ("MASKARR", EXT)  # StorageBase.mask: one entry per element of the external shape
+            if e.attr == "data":
+                b = self.k(base)
+                if b and b[0] == "MASKARR":
+                    return ("ARR", b[1])
             if e.attr == "sequence" and isinstance(base, ast.Name) and any(p_.arg == base.id and p_.annotation is not None and "SequenceLearner" in norm(p_.annotation) for p_ in self.fn.params):
                 return ("SEQ", LIN_EXT)  # a learner made by _learner runs over _sequence(...): linear indices of the external space
             if e.attr in ("external_indices",):
@@ -269,7 +275,12 @@ class KindAnalysis:
                 elif i is not None:
                     self.need(e, i, ("LIN", b[1]), f"`{norm(e)}` indexes the flat result array")
                 return None
-            if b[0] == "ARR":
+            if b[0] in ("ARR", "MASKARR"):
+                if isinstance(e.slice, ast.Slice) and e.slice.lower is None and e.slice.upper is None and e.slice.step is None:
+                    # `a[:]` needs at least one axis: the external shape is () for a function without a mapped axis (`x[:] -> y[j]`)
+                    self.report(e, b[1] != EXT, f"`{norm(e)}` slices the first axis of an array over {show(('T', b[1]))}" + ("" if b[1] != EXT else
+                                " - the external shape is () when no axis is mapped (`x[:] -> y[j]`): a 0-d array cannot be sliced (IndexError), the backend refuses a map the other backends run"))
+                    return b
                 i = self.k(e.slice)
                 if i is not None and dom(i):
                     self.need(e, i, ("T", b[1]), f"`{norm(e)}` indexes an array of that shape")
